@@ -409,6 +409,10 @@ func (g *gen) randomOp() {
 		}
 		return hx.Pick(r, live)
 	}
+	if r.Chance(1, 12) { // a read in between: artifacts produced (caches warm), graph and parameters queried
+		g.do(Op{K: "eval"})
+		return
+	}
 	switch w := r.Intn(100); {
 	case w < 12: // create
 		if r.Chance(3, 5) {
@@ -484,13 +488,7 @@ func (g *gen) randomOp() {
 		if n == nil || g.hasDependents(n.id) {
 			return
 		}
-		g.do(Op{K: "delete", ID: n.id})
-		for i, m := range g.nodes {
-			if m == n {
-				g.nodes = append(append([]*gnode{}, g.nodes[:i]...), g.nodes[i+1:]...)
-				break
-			}
-		}
+		g.deleteNode(n)
 	case w < 72: // update
 		var cands []*gnode
 		for _, n := range live {
@@ -718,7 +716,21 @@ func genHist(r *hx.Rng, run *hx.Run, i int) histDesc {
 			g.connect(j, t, tyTable[t.ti].Ports[0])
 			g.do(Op{K: "producer", ID: t.id, S: "sum.txt"})
 		}
+		if r.Chance(1, 2) { // the artifact is produced, THEN elements are disconnected (caches must not outlive edits)
+			g.do(Op{K: "eval"})
+			for k, m := 0, r.Range(1, 3); k < m && len(dst.ins[p.Name]) > 1; k++ {
+				l := dst.ins[p.Name]
+				j := r.Range(0, len(l)-1)
+				if g.do(Op{K: "disconnect", ID: dst.id, Port: fmt.Sprintf("%s.%d", p.Name, j)}) {
+					dst.ins[p.Name] = append(append([]string{}, l[:j]...), l[j+1:]...)
+				}
+			}
+			run.Count("array:evaluated-before-element-disconnect")
+		}
 		for k, m := 0, r.Range(0, 12); k < m; k++ {
+			if r.Chance(1, 2) {
+				break
+			}
 			g.randomOp()
 		}
 		run.Count("flavour:array")
@@ -778,8 +790,44 @@ func genHist(r *hx.Rng, run *hx.Run, i int) histDesc {
 		}
 		run.Count("flavour:binary")
 	}
-	d.Ops = g.ops
+	// the continuation (applied after the save to the live and to the reloaded instance): ids that were freed
+	// before the save, a node created after it, and whatever else comes
+	if i%2 == 0 {
+		for k, m := 0, r.Range(0, 2); k < m; k++ {
+			cands := []*gnode{}
+			for _, n := range g.nodes {
+				if !g.hasDependents(n.id) {
+					cands = append(cands, n)
+				}
+			}
+			if len(cands) == 0 || len(g.nodes) < 3 {
+				break
+			}
+			g.deleteNode(hx.Pick(r, cands))
+		}
+	}
+	n0 := len(g.ops)
+	if r.Chance(2, 3) {
+		g.create(hx.Pick(r, paramTags))
+	}
+	for k, m := 0, r.Range(1, 8); k < m; k++ {
+		g.randomOp()
+	}
+	if r.Chance(1, 2) {
+		g.create(hx.Pick(r, procTags))
+	}
+	d.Ops, d.Cont = g.ops[:n0:n0], g.ops[n0:]
 	return d
+}
+
+func (g *gen) deleteNode(n *gnode) {
+	g.do(Op{K: "delete", ID: n.id})
+	for i, m := range g.nodes {
+		if m == n {
+			g.nodes = append(append([]*gnode{}, g.nodes[:i]...), g.nodes[i+1:]...)
+			break
+		}
+	}
 }
 
 // ---- fixed corner histories ----
@@ -830,10 +878,75 @@ func widthBoundaryHistories() []histDesc {
 	}
 }
 
+func withCont(d histDesc, cont ...Op) histDesc { d.Cont = cont; return d }
+
+// warmCacheHistories: reads interleaved with edits. The artifact is produced BEFORE an element of an array input
+// is disconnected (each source processed once: the remaining dependencies' versions line up with the recorded
+// ones), before a scalar input is cleared, before a parameter update; the live graph must then serve what the
+// saved-and-reloaded one computes.
+func warmCacheHistories() []histDesc {
+	build := func(tag, field string, n int) []Op {
+		ops := []Op{{K: "create", Ty: tag}}
+		for k := 1; k <= n; k++ {
+			id := fmt.Sprintf("Node-%d", k)
+			ops = append(ops, Op{K: "create", Ty: "f64"}, Op{K: "update", ID: id, Msg: b64([]byte(fmt.Sprint(k * k)))},
+				Op{K: "connect", Src: id, ID: "Node-0", Port: fmt.Sprintf("%s.%d", field, k-1)})
+		}
+		j, t := fmt.Sprintf("Node-%d", n+1), fmt.Sprintf("Node-%d", n+2)
+		return append(ops, Op{K: "create", Ty: "join"}, Op{K: "connect", Src: "Node-0", ID: j, Port: "Numbers.0"},
+			Op{K: "create", Ty: "text"}, Op{K: "connect", Src: j, ID: t, Port: "In"}, Op{K: "producer", ID: t, S: "warm.txt"},
+			Op{K: "eval"})
+	}
+	out := []histDesc{}
+	// element disconnects after a read: middle, first, last; one and several
+	out = append(out, hist(append(build("sum", "Values", 5), Op{K: "disconnect", ID: "Node-0", Port: "Values.2"})...))
+	out = append(out, hist(append(build("mix", "Values2", 4), Op{K: "disconnect", ID: "Node-0", Port: "Values2.0"}, Op{K: "eval"},
+		Op{K: "disconnect", ID: "Node-0", Port: "Values2.2"})...))
+	out = append(out, hist(append(build("sum", "ValuesB", 12), Op{K: "disconnect", ID: "Node-0", Port: "ValuesB.11"}, Op{K: "disconnect", ID: "Node-0", Port: "ValuesB.10"})...))
+	// the same with the disconnect AFTER the save, on the live (warm) and the reloaded (cold, then warmed) graph
+	out = append(out, withCont(hist(build("sum", "Values", 5)...), Op{K: "eval"}, Op{K: "disconnect", ID: "Node-0", Port: "Values.1"}))
+	// whole-field clear, update of a source, reconnect, delete of a source after disconnecting it: all after a read
+	out = append(out, hist(append(build("sum", "Values", 3), Op{K: "disconnect", ID: "Node-0", Port: "Values"})...))
+	out = append(out, hist(append(build("sum", "Values", 3), Op{K: "update", ID: "Node-2", Msg: b64([]byte("100"))}, Op{K: "eval"},
+		Op{K: "disconnect", ID: "Node-0", Port: "Values.0"}, Op{K: "delete", ID: "Node-1"})...))
+	// strings through join.Parts
+	out = append(out, hist(Op{K: "create", Ty: "join"}, Op{K: "create", Ty: "str"}, Op{K: "create", Ty: "str"}, Op{K: "create", Ty: "str"},
+		Op{K: "update", ID: "Node-1", Msg: b64([]byte(`"a"`))}, Op{K: "update", ID: "Node-2", Msg: b64([]byte(`"b"`))}, Op{K: "update", ID: "Node-3", Msg: b64([]byte(`"c"`))},
+		Op{K: "connect", Src: "Node-1", ID: "Node-0", Port: "Parts.0"}, Op{K: "connect", Src: "Node-2", ID: "Node-0", Port: "Parts.1"},
+		Op{K: "connect", Src: "Node-3", ID: "Node-0", Port: "Parts.2"},
+		Op{K: "create", Ty: "text"}, Op{K: "connect", Src: "Node-0", ID: "Node-4", Port: "In"}, Op{K: "producer", ID: "Node-4", S: "p.txt"},
+		Op{K: "eval"}, Op{K: "disconnect", ID: "Node-0", Port: "Parts.1"}))
+	return out
+}
+
+// continuationHistories: the reloaded graph is edited further. Ids freed before the save (first, middle, last,
+// several), then nodes created, addressed, connected and deleted after it.
+func continuationHistories() []histDesc {
+	three := []Op{{K: "create", Ty: "f64"}, {K: "create", Ty: "int"}, {K: "create", Ty: "str"}, {K: "create", Ty: "sum"}}
+	out := []histDesc{}
+	for _, del := range [][]string{{"Node-0"}, {"Node-1"}, {"Node-3"}, {"Node-0", "Node-2"}, {}} {
+		ops := append([]Op{}, three...)
+		for _, id := range del {
+			ops = append(ops, Op{K: "delete", ID: id})
+		}
+		out = append(out, withCont(hist(ops...),
+			Op{K: "create", Ty: "f64"}, Op{K: "create", Ty: "bool"},
+			Op{K: "update", ID: "Node-4", Msg: b64([]byte("4.5"))}, Op{K: "name", ID: "Node-4", S: "made after the reload"},
+			Op{K: "update", ID: "Node-3", Msg: b64([]byte("3"))}, Op{K: "update", ID: "Node-2", Msg: b64([]byte(`"two"`))},
+			Op{K: "update", ID: "Node-5", Msg: b64([]byte("true"))},
+			Op{K: "create", Ty: "sum"}, Op{K: "connect", Src: "Node-4", ID: "Node-6", Port: "Values.0"},
+			Op{K: "connect", Src: "Node-4", ID: "Node-3", Port: "Values.0"}, Op{K: "connect", Src: "Node-0", ID: "Node-3", Port: "Values.1"},
+			Op{K: "delete", ID: "Node-5"}, Op{K: "create", Ty: "text"}, Op{K: "setmeta", S: "nodes.Node-4.position", V: `{"x":1,"y":2}`}))
+	}
+	return out
+}
+
 func fixedHistories() []histDesc {
 	out := []histDesc{hist()}
 	out = append(out, widthBoundaryHistories()...)
 	out = append(out, encodingHistories()...)
+	out = append(out, warmCacheHistories()...)
+	out = append(out, continuationHistories()...)
 	// 11 and 12 connections on one array input, distinct values (DESIGN.md §5 entry 13)
 	for _, n := range []int{11, 12, 25} {
 		ops := []Op{{K: "create", Ty: "sum"}}
